@@ -16,24 +16,26 @@ import (
 // way the code touches its inputs (orderings of lengths, digit bytes, 256 byte values): every cell
 // is evaluated, none is sampled. Constructs it does not know make the cell undecided.
 type miniEval struct {
-	pk      *packages.Package
-	env     map[string]int64
-	call    func(call *ast.CallExpr) (int64, bool)
-	hook    func(x ast.Expr) (int64, bool)           // consulted first for every expression
-	tuple   func(call *ast.CallExpr) ([]int64, bool) // results of a multi-value call
-	rng     func(x ast.Expr) ([]int64, bool)         // elements of a non-constant range operand
-	maps    map[string]map[int64]bool                // sets / maps held in plain variables, by key
-	dyn     func(x ast.Expr) string                  // dynamic type (last name component) of a type-switch operand
-	ctx     *core.Ctx                                // when set, calls of small pure module functions of integers are evaluated in place
-	tables  map[string][]ast.Expr                    // locals that name a row of a constant table
-	methods bool                                     // evaluate parameterless methods of the same package in place, with the same hooks
-	onStore func(lhs, rhs ast.Expr)                  // told about every assignment to something that is not a plain variable
-	helpers bool                                     // evaluate any function of the same package in place (integer arguments bound, the others opaque), with the same hooks
-	depth   int
-	lens    map[string]bool // variables that stand for a slice, valued by its LENGTH
-	steps   int             // loop iterations executed (bounded)
-	unknown string
-	effects []string // assignments to anything that is not a plain variable, in program order
+	pk         *packages.Package
+	env        map[string]int64
+	call       func(call *ast.CallExpr) (int64, bool)
+	hook       func(x ast.Expr) (int64, bool)           // consulted first for every expression
+	tuple      func(call *ast.CallExpr) ([]int64, bool) // results of a multi-value call
+	rng        func(x ast.Expr) ([]int64, bool)         // elements of a non-constant range operand
+	maps       map[string]map[int64]bool                // sets / maps held in plain variables, by key
+	vmaps      map[string]map[int64]int64               // maps with integer-like values (enums, counters), by the expression that names them
+	dyn        func(x ast.Expr) string                  // dynamic type (last name component) of a type-switch operand
+	ctx        *core.Ctx                                // when set, calls of small pure module functions of integers are evaluated in place
+	tables     map[string][]ast.Expr                    // locals that name a row of a constant table
+	methods    bool                                     // evaluate parameterless methods of the same package in place, with the same hooks
+	onExprCall func(call *ast.CallExpr) bool            // a call used as a statement; true = handled
+	onStore    func(lhs, rhs ast.Expr)                  // told about every assignment to something that is not a plain variable
+	helpers    bool                                     // evaluate any function of the same package in place (integer arguments bound, the others opaque), with the same hooks
+	depth      int
+	lens       map[string]bool // variables that stand for a slice, valued by its LENGTH
+	steps      int             // loop iterations executed (bounded)
+	unknown    string
+	effects    []string // assignments to anything that is not a plain variable, in program order
 }
 
 const (
@@ -85,6 +87,12 @@ func (e *miniEval) expr(x ast.Expr) int64 {
 		}
 		return e.fail("variable " + y.Name)
 	case *ast.IndexExpr:
+		if vm, ok := e.vmaps[core.ExprStr(y.X)]; ok {
+			return vm[e.expr(y.Index)]
+		}
+		if m, ok := e.maps[core.ExprStr(y.X)]; ok {
+			return b2i(m[e.expr(y.Index)])
+		}
 		// an element of a length-modelled slice is represented by its index
 		if e.lens[core.ExprStr(y.X)] {
 			return e.expr(y.Index)
@@ -179,6 +187,9 @@ func (e *miniEval) expr(x ast.Expr) int64 {
 			if m, ok := e.maps[core.ExprStr(y.Args[0])]; ok {
 				return int64(len(m))
 			}
+			if vm, ok := e.vmaps[core.ExprStr(y.Args[0])]; ok {
+				return int64(len(vm))
+			}
 			if e.lens[core.ExprStr(y.Args[0])] {
 				return e.env[core.ExprStr(y.Args[0])]
 			}
@@ -229,8 +240,30 @@ func (e *miniEval) expr(x ast.Expr) int64 {
 }
 
 func (e *miniEval) assign(lhs ast.Expr, tok token.Token, rhs ast.Expr) {
+	if ix, isIx := ast.Unparen(lhs).(*ast.IndexExpr); isIx {
+		if vm, ok := e.vmaps[core.ExprStr(ix.X)]; ok {
+			k, v := e.expr(ix.Index), e.expr(rhs)
+			switch tok {
+			case token.ASSIGN:
+				vm[k] = v
+			case token.ADD_ASSIGN:
+				vm[k] += v
+			case token.SUB_ASSIGN:
+				vm[k] -= v
+			default:
+				e.fail("map assignment " + tok.String())
+			}
+			return
+		}
+	}
 	if ix, isIx := ast.Unparen(lhs).(*ast.IndexExpr); isIx && tok == token.ASSIGN {
 		if m, ok := e.maps[core.ExprStr(ix.X)]; ok {
+			if t := core.TypeOf(e.pk, rhs); t != nil {
+				if b, isB := t.Underlying().(*types.Basic); isB && b.Kind() == types.Bool || t.String() == "untyped bool" {
+					m[e.expr(ix.Index)] = e.expr(rhs) != 0
+					return
+				}
+			}
 			m[e.expr(ix.Index)] = true
 			return
 		}
@@ -344,9 +377,25 @@ func (e *miniEval) run(stmts []ast.Stmt) (status int, rets []int64) {
 						}
 						break
 					}
-					if m, ok := e.maps[core.ExprStr(ix.X)]; ok {
+					if vm, ok := e.vmaps[core.ExprStr(ix.X)]; ok {
+						k := e.expr(ix.Index)
+						v, present := vm[k]
+						if id, isID := s.Lhs[0].(*ast.Ident); isID && id.Name != "_" {
+							e.env[id.Name] = v
+						}
 						if id, isID := s.Lhs[1].(*ast.Ident); isID && id.Name != "_" {
-							e.env[id.Name] = b2i(m[e.expr(ix.Index)])
+							e.env[id.Name] = b2i(present)
+						}
+						break
+					}
+					if m, ok := e.maps[core.ExprStr(ix.X)]; ok {
+						k := e.expr(ix.Index)
+						_, present := m[k]
+						if id, isID := s.Lhs[0].(*ast.Ident); isID && id.Name != "_" {
+							e.env[id.Name] = b2i(m[k])
+						}
+						if id, isID := s.Lhs[1].(*ast.Ident); isID && id.Name != "_" {
+							e.env[id.Name] = b2i(present)
 						}
 						break
 					}
@@ -419,9 +468,16 @@ func (e *miniEval) run(stmts []ast.Stmt) (status int, rets []int64) {
 				e.effects = append(e.effects, core.ExprStr(s.X))
 				return miniPanic, nil
 			}
+			if call, isC := s.X.(*ast.CallExpr); isC && e.onExprCall != nil && e.onExprCall(call) {
+				break
+			}
 			if call, isC := s.X.(*ast.CallExpr); isC && core.ExprStr(call.Fun) == "delete" && len(call.Args) == 2 {
 				if m, ok := e.maps[core.ExprStr(call.Args[0])]; ok {
 					delete(m, e.expr(call.Args[1]))
+					break
+				}
+				if vm, ok := e.vmaps[core.ExprStr(call.Args[0])]; ok {
+					delete(vm, e.expr(call.Args[1]))
 					break
 				}
 			}
@@ -918,7 +974,7 @@ func (e *miniEval) runHelper(call *ast.CallExpr, nres int) ([]int64, bool) {
 		}
 	}()
 	sub := &miniEval{pk: d.Pkg, env: e.env, ctx: e.ctx, depth: e.depth + 1, methods: e.methods, helpers: e.helpers,
-		call: e.call, hook: e.hook, tuple: e.tuple, rng: e.rng, dyn: e.dyn, maps: e.maps, lens: e.lens, tables: e.tables}
+		call: e.call, hook: e.hook, tuple: e.tuple, rng: e.rng, dyn: e.dyn, maps: e.maps, vmaps: e.vmaps, lens: e.lens, tables: e.tables}
 	type binding struct {
 		name string
 		val  int64
